@@ -17,6 +17,7 @@ import ASV.Proofs.ModulesLayoutFacts
 import ASV.Proofs.ModulesLine
 import ASV.Proofs.ModulesBlocks
 import ASV.Proofs.ModulesHmm
+import ASV.Proofs.ModulesFeature
 namespace ASV.C14
 open ASV ASV.Modules ASV.Modules.T
 
@@ -267,7 +268,8 @@ theorem chain_reports_assembly_line (genes : List Gene) (h : ∀ g ∈ genes, In
 /-- 8c. merging only between direct neighbours: with a separator put into the assembly line
     wherever two consecutive genes with domains are *not* direct neighbours in the iteration order
     (a gene in between, even one without domains), or lie in different regions, or on different
-    strands, the loop still keeps the line; every reported module is a contiguous, separator-free
+    strands, or one of them has hits but no module of its own (only docking/COM domains or only
+    motif hits — `generate_domains` then still sets `prev` to it), the loop still keeps the line; every reported module is a contiguous, separator-free
     block of it.  Hence a cross-gene module only ever joins the trailing module of the upstream
     gene with the leading module of the *adjacent, same-region, same-strand* downstream gene.
     `Consec 0 genes`: the `index` fields number the genes 0, 1, 2, … (their iteration order). -/
@@ -311,6 +313,38 @@ theorem hmm_constructed_iff_wf (raw : Hmm) :
     ∧ (∀ h, Hmm.validate raw = .ok h → h = raw ∧ h.WF = true)
     ∧ (∀ j h, Hmm.fromJson j = .ok h → h.WF = true) :=
   ⟨Hmm.validate_wf raw, Hmm.validate_ok raw, Hmm.fromJson_wf⟩
+
+/-! ### the saved form of a module in the record: the aSModule feature
+    (secmet/features/module.py, created in `NRPSPKSDomains.add_to_record`) -/
+
+/-- 10a. `Module.from_biopython(Module.to_biopython(f))` is `f`, for every feature the constructor
+    accepts (at least one domain, all on one strand) whose domains the record knows by name — the
+    type, the domains in order and all four flags (complete, starter, final, iterative) survive,
+    *independently of each other*: an incomplete module keeps its starter / final role -/
+theorem feature_reload_identity (known : String → Option FDomain) (f : ModFeature)
+    (hv : ModFeature.construct f.domains f.type f.complete f.starter f.final f.iterative = .ok f)
+    (hk : ∀ d ∈ f.domains, known (removeSpaces d.name) = some d) :
+    ModFeature.fromBiopython known f.toBiopython = .ok f :=
+  feature_roundtrip known f hv hk
+
+/-- 10b. the whole path detection module → `add_to_record` → `to_biopython` → `from_biopython`:
+    the rebuilt feature is the one that was added, and its flags are the documented ones of the
+    module's component list -/
+theorem detected_feature_reload (m : Module) (hg : Good m) (doms : List FDomain) (f : ModFeature)
+    (hf : m.toFeature doms = .ok f) (known : String → Option FDomain)
+    (hk : ∀ d ∈ doms, known (removeSpaces d.name) = some d) :
+    ModFeature.fromBiopython known f.toBiopython = .ok f
+    ∧ f.domains = doms
+    ∧ f.complete = Spec.complete m.components m.firstInCds
+    ∧ f.starter = Spec.starterModule m.components m.firstInCds
+    ∧ f.final = Spec.terminationModule m.components
+    ∧ f.iterative = Spec.iterative m.components := by
+  obtain ⟨hI, _, _⟩ := hg.1.facts
+  unfold Module.toFeature at hf
+  have he := construct_eq hf
+  subst he
+  exact ⟨feature_roundtrip known _ (construct_again hf _ _ _ _ _) hk, rfl, hI.isComplete_eq,
+         hI.isStarterModule_eq, hI.isTerminationModule_eq, hI.isIterative_eq⟩
 
 /-- the layout predicate read with indices: position `i` is checked against the components
     before it and after it -/
@@ -456,12 +490,30 @@ example : (match Hmm.validate (.mk "PKS_KS" 0 100 0 50 [.mk "x" 100 120 0 10 []]
 
 
 /-! ### non-vacuity for 8c: a gene without domains between two genes puts a separator into the line -/
-example : Spec.chainLine [⟨0, 1, 0, leftComps⟩, ⟨2, 1, 0, rightComps⟩] = leftComps ++ [Spec.sepComp] ++ rightComps := by
+example : Spec.chainLine [⟨0, 1, 0, leftComps, false⟩, ⟨2, 1, 0, rightComps, false⟩] = leftComps ++ [Spec.sepComp] ++ rightComps := by
   decide
-example : Spec.chainLine [⟨0, 1, 0, leftComps⟩, ⟨1, 1, 0, rightComps⟩] = leftComps ++ rightComps := by decide
-example : Spec.chainLine [⟨0, -1, 0, leftComps⟩, ⟨1, -1, 0, rightComps⟩] = rightComps ++ leftComps := by decide
-example : Spec.chainLine [⟨0, -1, 0, leftComps⟩, ⟨1, -1, 1, rightComps⟩] = leftComps ++ [Spec.sepComp] ++ rightComps := by
+example : Spec.chainLine [⟨0, 1, 0, leftComps, false⟩, ⟨1, 1, 0, rightComps, false⟩] = leftComps ++ rightComps := by decide
+example : Spec.chainLine [⟨0, -1, 0, leftComps, false⟩, ⟨1, -1, 0, rightComps, false⟩] = rightComps ++ leftComps := by decide
+example : Spec.chainLine [⟨0, -1, 0, leftComps, false⟩, ⟨1, -1, 1, rightComps, false⟩] = leftComps ++ [Spec.sepComp] ++ rightComps := by
   decide
+/-- a gene with hits but no module of its own (only docking domains) between two genes is a barrier -/
+example : Spec.chainLine [⟨0, 1, 0, leftComps, false⟩, ⟨1, 1, 0, [], true⟩, ⟨2, 1, 0, rightComps, false⟩]
+    = leftComps ++ [Spec.sepComp] ++ [Spec.sepComp] ++ rightComps := by decide
 example : Consec 0 [⟨"a", 1, 0, [], false, 0⟩, ⟨"b", 1, 0, [], false, 1⟩] := ⟨rfl, rfl, trivial⟩
+
+
+/-! ### non-vacuity for 10: an incomplete terminating module [PCP, Thioesterase] and an incomplete
+    starter module keep their roles through the saved form -/
+def fd (n : String) : FDomain := ⟨n, "gene", 1⟩
+def knownEx (n : String) : Option FDomain := if n == "d1" || n == "d2" then some (fd n) else none
+example : (match ModFeature.fromBiopython knownEx (ModFeature.toBiopython ⟨[fd "d1", fd "d2"], .nrps, false, false, true, false⟩) with
+           | .ok g => g.final && !g.complete && !g.starter
+           | .error _ => false) = true := by decide
+example : (match ModFeature.fromBiopython knownEx (ModFeature.toBiopython ⟨[fd "d1", fd "d2"], .nrps, false, true, false, false⟩) with
+           | .ok g => g.starter && !g.complete
+           | .error _ => false) = true := by decide
+/-- a domain on another strand is refused by the constructor -/
+example : (match ModFeature.construct [fd "d1", ⟨"d2", "gene", -1⟩] .pks true false false false with
+           | .error .valueError => true | _ => false) = true := by decide
 
 end ASV.C14
